@@ -22,9 +22,14 @@
 #include <sys/stat.h>
 #include <unistd.h>
 
+#include <signal.h>
+#include <sys/wait.h>
+
 #include <algorithm>
 #include <array>
+#include <set>
 #include <string>
+#include <thread>
 #include <vector>
 
 #include "Image.hh"
@@ -147,16 +152,11 @@ int cookie_seek(void* c, off64_t* off, int whence) {
   return 0;
 }
 
-// chunk == 0: fmemopen over an exact-size heap copy; chunk > 0: cookie stream delivering `chunk` bytes per read
-Loaded load_bytes(const uint8_t* data, size_t n, size_t chunk = 0) {
+template <class F>
+Loaded observe_load(F&& construct) {  // construct() returns the Image
   Loaded L;
-  uint8_t* copy = (uint8_t*)malloc(n ? n : 1);
-  if (n) memcpy(copy, data, n);
-  Cookie ck{copy, n, 0, chunk};
-  FILE* f = chunk ? fopencookie(&ck, "rb", cookie_io_functions_t{cookie_read, nullptr, cookie_seek, nullptr}) : fmemopen(copy, n, "rb");
-  if (!f) { free(copy); L.outcome = "harness-fmemopen-failed"; return L; }
   try {
-    Image img(f);
+    Image img = construct();
     L.outcome = "ok";
     L.w = img.get_width(); L.h = img.get_height(); L.cw = img.get_channel_width(); L.alpha = img.get_has_alpha();
     if (L.cw == 8 || L.cw == 16 || L.cw == 32 || L.cw == 64) {
@@ -169,9 +169,190 @@ Loaded load_bytes(const uint8_t* data, size_t n, size_t chunk = 0) {
   } catch (const std::runtime_error& e) { L.outcome = "runtime_error"; L.what = e.what();
   } catch (const std::exception& e) { L.outcome = "exception"; L.what = e.what();
   } catch (...) { L.outcome = "nonstd"; }
+  return L;
+}
+
+bool same_loaded(const Loaded& a, const Loaded& b) {
+  return a.outcome == b.outcome && a.w == b.w && a.h == b.h && a.cw == b.cw && a.alpha == b.alpha && a.raw == b.raw;
+}
+
+// chunk == 0: fmemopen over an exact-size heap copy; chunk > 0: cookie stream delivering `chunk` bytes per read,
+// seekable or not (a non-seekable cookie stream behaves like a pipe: fseek fails with ESPIPE);
+// fail_at >= 0: the read call that would deliver byte `fail_at` fails once with EINTR (no bytes delivered), later reads work
+struct FaultCookie : Cookie {
+  ssize_t fail_at = -1;
+  bool failed = false;
+};
+ssize_t fault_cookie_read(void* c, char* buf, size_t size) {
+  FaultCookie* k = (FaultCookie*)c;
+  if (k->fail_at >= 0 && !k->failed && k->pos <= (size_t)k->fail_at) {
+    size_t avail = k->pos < k->n ? k->n - k->pos : 0;
+    size_t m = std::min(std::min(size, avail), k->chunk);
+    if (k->pos + m > (size_t)k->fail_at) {
+      k->failed = true;
+      errno = EINTR;
+      return -1;
+    }
+  }
+  return cookie_read(c, buf, size);
+}
+Loaded load_bytes(const uint8_t* data, size_t n, size_t chunk = 0, bool seekable = true, ssize_t fail_at = -1) {
+  uint8_t* copy = (uint8_t*)malloc(n ? n : 1);
+  if (n) memcpy(copy, data, n);
+  FaultCookie ck;
+  ck.data = copy; ck.n = n; ck.pos = 0; ck.chunk = chunk; ck.fail_at = fail_at;
+  FILE* f = chunk ? fopencookie(&ck, "rb", cookie_io_functions_t{fault_cookie_read, nullptr, seekable ? cookie_seek : nullptr, nullptr}) : fmemopen(copy, n, "rb");
+  if (!f) { free(copy); Loaded L; L.outcome = "harness-fmemopen-failed"; return L; }
+  Loaded L = observe_load([&] { return Image(f); });
   fclose(f);
   free(copy);
   return L;
+}
+
+bool write_all(int fd, const uint8_t* data, size_t n) {
+  size_t off = 0;
+  while (off < n) {
+    ssize_t k = write(fd, data + off, n - off);
+    if (k < 0 && errno == EINTR) continue;
+    if (k <= 0) return false;
+    off += k;
+  }
+  return true;
+}
+
+// the bytes arrive through a real pipe (not seekable).  via_stdin: the pipe is fd 0 and the image is constructed
+// with a null filename, which phosg documents as "read stdin".  The caller uses stdin at most once per process.
+Loaded load_pipe(const uint8_t* data, size_t n, bool via_stdin) {
+  int p[2];
+  Loaded L;
+  if (pipe(p) < 0) { L.outcome = "harness-pipe-failed"; return L; }
+  signal(SIGPIPE, SIG_IGN);
+  std::thread wr;
+  auto writer = [&] { write_all(p[1], data, n); close(p[1]); };
+  if (n > 60000) wr = std::thread(writer);
+  else writer();
+  if (via_stdin) {
+    int saved = dup(0);
+    dup2(p[0], 0);
+    close(p[0]);
+    L = observe_load([&] { return Image((const char*)nullptr); });
+    if (saved >= 0) { dup2(saved, 0); close(saved); } else close(0);
+  } else {
+    FILE* f = fdopen(p[0], "rb");
+    if (!f) { close(p[0]); L.outcome = "harness-fdopen-failed"; }
+    else {
+      L = observe_load([&] { return Image(f); });
+      fclose(f);
+    }
+  }
+  if (wr.joinable()) wr.join();
+  return L;
+}
+
+bool write_file(const string& path, const uint8_t* data, size_t n) {
+  int fd = open(path.c_str(), O_WRONLY | O_CREAT | O_TRUNC, 0644);
+  if (fd < 0) return false;
+  bool ok = write_all(fd, data, n);
+  close(fd);
+  return ok;
+}
+
+// a real file: 0 Image(FILE*), 1 Image(FILE*) on an unbuffered stream, 2 Image(const char*), 3 Image(const std::string&),
+// 4 null filename with the file on fd 0
+Loaded load_file(const string& path, int mode) {
+  Loaded L;
+  if (mode <= 1) {
+    FILE* f = fopen(path.c_str(), "rb");
+    if (!f) { L.outcome = "harness-fopen-failed"; return L; }
+    if (mode == 1) setvbuf(f, nullptr, _IONBF, 0);
+    L = observe_load([&] { return Image(f); });
+    fclose(f);
+  } else if (mode == 2) {
+    L = observe_load([&] { return Image(path.c_str()); });
+  } else if (mode == 3) {
+    L = observe_load([&] { return Image(path); });
+  } else {
+    int fd = open(path.c_str(), O_RDONLY);
+    if (fd < 0) { L.outcome = "harness-open-failed"; return L; }
+    int saved = dup(0);
+    dup2(fd, 0);
+    close(fd);
+    L = observe_load([&] { return Image((const char*)nullptr); });
+    if (saved >= 0) { dup2(saved, 0); close(saved); } else close(0);
+  }
+  return L;
+}
+
+// header of a netpbm file as the netpbm documents define it (written here, shares nothing with phosg)
+struct PnmHdr {
+  bool ok = false;
+  int magic = 0;
+  uint64_t w = 0, h = 0, maxval = 0, depth = 0;
+  string tupl;
+  size_t off = 0;  // start of the raster
+};
+PnmHdr parse_pnm_header(const string& d) {
+  PnmHdr H;
+  if (d.size() < 3 || d[0] != 'P' || (d[1] != '5' && d[1] != '6' && d[1] != '7')) return H;
+  H.magic = d[1] - '0';
+  size_t pos = 2;
+  auto number = [&](const string& t, uint64_t& out) {
+    if (t.empty() || t.size() > 20) return false;
+    unsigned __int128 v = 0;
+    for (char c : t) {
+      if (c < '0' || c > '9') return false;
+      v = v * 10 + (c - '0');
+    }
+    if (v > ~0ull) return false;
+    out = (uint64_t)v;
+    return true;
+  };
+  if (H.magic == 7) {
+    if (d[2] != '\n') return H;
+    pos = 3;
+    bool gw = false, gh = false, gm = false, gd = false;
+    for (;;) {
+      size_t e = d.find('\n', pos);
+      if (e == string::npos) return H;
+      string line = d.substr(pos, e - pos);
+      pos = e + 1;
+      while (!line.empty() && (line.back() == ' ' || line.back() == '\t' || line.back() == '\r')) line.pop_back();
+      if (line == "ENDHDR") break;
+      if (line.empty() || line[0] == '#') continue;
+      size_t sp = line.find(' ');
+      if (sp == string::npos) return H;
+      string key = line.substr(0, sp), val = line.substr(sp + 1);
+      while (!val.empty() && val[0] == ' ') val.erase(0, 1);
+      if (key == "WIDTH") gw = number(val, H.w);
+      else if (key == "HEIGHT") gh = number(val, H.h);
+      else if (key == "DEPTH") gd = number(val, H.depth);
+      else if (key == "MAXVAL") gm = number(val, H.maxval);
+      else if (key == "TUPLTYPE") H.tupl = val;
+      else return H;
+    }
+    if (!gw || !gh || !gm || !gd) return H;
+  } else {
+    uint64_t* dst[3] = {&H.w, &H.h, &H.maxval};
+    for (int i = 0; i < 3; i++) {
+      for (;;) {
+        while (pos < d.size() && (d[pos] == ' ' || d[pos] == '\t' || d[pos] == '\r' || d[pos] == '\n' || d[pos] == '\v' || d[pos] == '\f')) pos++;
+        if (pos < d.size() && d[pos] == '#') {
+          while (pos < d.size() && d[pos] != '\n') pos++;
+          continue;
+        }
+        break;
+      }
+      size_t st = pos;
+      while (pos < d.size() && d[pos] >= '0' && d[pos] <= '9') pos++;
+      if (!number(d.substr(st, pos - st), *dst[i])) return H;
+    }
+    if (pos >= d.size() || !strchr(" \t\r\n\v\f", d[pos])) return H;
+    pos++;
+    H.depth = H.magic == 5 ? 1 : 3;
+  }
+  H.off = pos;
+  H.ok = true;
+  return H;
 }
 
 string px_str(const Pic& p, int x, int y) {
@@ -329,33 +510,71 @@ struct Kind {
   int depth = 24, comp = 0, hdr = 40;
   bool topdown = false;
   int perm[4] = {2, 1, 0, 3};  // byte offset inside the 32-bit pixel of R,G,B,A
+  // round 2
+  uint64_t maxval = 0;    // PNM: 0 = 2^cw - 1; otherwise the MAXVAL written (cw follows from it)
+  int order = 0;          // P7: order of the header lines
+  int gap = 0;            // BMP: bytes between the headers and the pixel array (bfOffBits points behind them)
+  int trail = 0;          // bytes after the raster
+  bool dontcare = false;  // outside the statement: executed, outcome recorded, never judged
+  bool extra = false;     // enumerated over the reduced dims x pattern grid
   bool gray() const { return type == PNM && (magic == 5 || (magic == 7 && tupl < 2)); }
-  bool has_alpha() const { return type == PNM ? (magic == 7 && (tupl == 1 || tupl == 3)) : comp == 3; }
+  bool has_alpha() const { return type == PNM ? (magic == 7 && (tupl == 1 || tupl == 3)) : (comp == 3 && hdr >= 56); }
+  uint64_t eff_maxval() const { return maxval ? maxval : mask_of(cw); }
 };
+
+int cw_of_maxval(uint64_t m) { return m <= 0xFF ? 8 : m <= 0xFFFF ? 16 : m <= 0xFFFFFFFFull ? 32 : 64; }
 
 vector<Kind> all_kinds(bool wide_gray) {
   vector<Kind> ks;
   const char* tn[4] = {"GRAYSCALE", "GRAYSCALE_ALPHA", "RGB", "RGB_ALPHA"};
-  for (int sep = 0; sep < 3; sep++) {
-    Kind k; k.magic = 5; k.sep = sep; k.name = vf::fmt("P5/ws%d", sep); k.family = "pnm-gray8"; ks.push_back(k);
-  }
-  for (int sep = 0; sep < 3; sep++) {
-    Kind k; k.magic = 6; k.sep = sep; k.name = vf::fmt("P6/ws%d", sep); k.family = "pnm-rgb"; ks.push_back(k);
-  }
-  for (int t = 0; t < 4; t++) {
-    Kind k; k.magic = 7; k.tupl = t; k.name = string("P7/") + tn[t];
-    k.family = t == 0 ? "pnm-gray8" : t == 1 ? "pnm-gray8-alpha" : "pnm-rgb";
-    ks.push_back(k);
-  }
+  // header whitespace forms 0..5 are defined by the netpbm documents (any run of blanks/TAB/CR/LF between the
+  // fields, one whitespace byte after maxval, decimal numbers); 6 (comment) and 7 (CR as the single terminator)
+  // are valid netpbm that phosg does not claim to read: executed, not judged
+  for (int magic : {5, 6})
+    for (int sep = 0; sep < 8; sep++) {
+      Kind k; k.magic = magic; k.sep = sep; k.name = vf::fmt("P%d/ws%d", magic, sep); k.family = magic == 5 ? "pnm-gray8" : "pnm-rgb";
+      k.extra = sep >= 3; k.dontcare = sep >= 6;
+      ks.push_back(k);
+    }
+  for (int order = 0; order < 3; order++)
+    for (int t = 0; t < 4; t++) {
+      Kind k; k.magic = 7; k.tupl = t; k.order = order; k.name = string("P7/") + tn[t] + (order ? vf::fmt("/order%d", order) : string());
+      k.family = t == 0 ? "pnm-gray8" : t == 1 ? "pnm-gray8-alpha" : "pnm-rgb";
+      k.extra = order > 0; k.dontcare = order == 2;  // order 2 carries a '#' comment line
+      ks.push_back(k);
+    }
   if (wide_gray) {
     for (int cw : {16, 32, 64}) {
       Kind k; k.magic = 5; k.cw = cw; k.name = vf::fmt("P5/%d-bit", cw); k.family = "pnm-gray-wide"; ks.push_back(k);
       Kind a; a.magic = 7; a.tupl = 1; a.cw = cw; a.name = vf::fmt("P7/GRAYSCALE_ALPHA/%d-bit", cw); a.family = "pnm-gray-wide-alpha"; ks.push_back(a);
+      Kind g; g.magic = 7; g.tupl = 0; g.cw = cw; g.extra = true; g.name = vf::fmt("P7/GRAYSCALE/%d-bit", cw); g.family = "pnm-gray-wide"; ks.push_back(g);
+      for (int t : {2, 3}) {
+        Kind c; c.magic = 7; c.tupl = t; c.cw = cw; c.extra = true; c.name = vf::fmt("P7/%s/%d-bit", tn[t], cw); c.family = "pnm-rgb-wide"; ks.push_back(c);
+      }
+      Kind p; p.magic = 6; p.cw = cw; p.extra = true; p.name = vf::fmt("P6/%d-bit", cw); p.family = "pnm-rgb-wide"; ks.push_back(p);
+    }
+    // MAXVAL boundaries: 2^k-1, 2^k, 2^k+1 around every sample-size threshold, and the extremes
+    const uint64_t mv[] = {1, 2, 100, 127, 128, 254, 256, 257, 1000, 32767, 32768, 65534, 65536, 65537, 0x7FFFFFFFull, 0x80000000ull,
+        0xFFFFFFFEull, 0x100000000ull, 0x100000001ull, 0x7FFFFFFFFFFFFFFFull, 0x8000000000000000ull, 0xFFFFFFFFFFFFFFFEull};
+    for (uint64_t m : mv)
+      for (int form = 0; form < 4; form++) {  // P5, P6, P7 GRAYSCALE_ALPHA, P7 RGB_ALPHA
+        Kind k; k.maxval = m; k.cw = cw_of_maxval(m); k.extra = true;
+        if (form == 0) k.magic = 5;
+        else if (form == 1) k.magic = 6;
+        else { k.magic = 7; k.tupl = form == 2 ? 1 : 3; }
+        k.name = vf::fmt("%s/maxval%llu", form == 0 ? "P5" : form == 1 ? "P6" : form == 2 ? "P7/GRAYSCALE_ALPHA" : "P7/RGB_ALPHA", (unsigned long long)m);
+        bool g = form == 0 || form == 2;
+        k.family = k.cw == 8 ? (form == 0 ? "pnm-gray8" : form == 2 ? "pnm-gray8-alpha" : "pnm-rgb") : (form == 0 ? "pnm-gray-wide" : form == 2 ? "pnm-gray-wide-alpha" : "pnm-rgb-wide");
+        (void)g;
+        ks.push_back(k);
+      }
+    for (int magic : {5, 6}) {  // bytes after the raster (netpbm streams may carry more images; phosg reads the first)
+      Kind k; k.magic = magic; k.trail = 5; k.extra = true; k.name = vf::fmt("P%d/trailing-bytes", magic); k.family = magic == 5 ? "pnm-gray8" : "pnm-rgb"; ks.push_back(k);
     }
   }
   for (int depth : {24, 32})
     for (int td = 0; td < 2; td++)
-      for (int hdr : {40, 108, 124}) {
+      for (int hdr : {40, 52, 56, 108, 124}) {
         Kind k; k.type = Kind::BMP; k.depth = depth; k.comp = 0; k.topdown = td; k.hdr = hdr;
         k.name = vf::fmt("BMP/%d-bit/BI_RGB/%s/hdr%d", depth, td ? "top-down" : "bottom-up", hdr); k.family = "bmp-rgb";
         ks.push_back(k);
@@ -363,7 +582,7 @@ vector<Kind> all_kinds(bool wide_gray) {
   int perm[4] = {0, 1, 2, 3};
   do {
     for (int td = 0; td < 2; td++)
-      for (int hdr : {108, 124}) {
+      for (int hdr : {56, 108, 124}) {
         Kind k; k.type = Kind::BMP; k.depth = 32; k.comp = 3; k.topdown = td; k.hdr = hdr;
         memcpy(k.perm, perm, sizeof(perm));
         k.name = vf::fmt("BMP/32-bit/BI_BITFIELDS/RGBA@bytes%d%d%d%d/%s/hdr%d", perm[0], perm[1], perm[2], perm[3], td ? "top-down" : "bottom-up", hdr);
@@ -371,6 +590,37 @@ vector<Kind> all_kinds(bool wide_gray) {
         ks.push_back(k);
       }
   } while (std::next_permutation(perm, perm + 4));
+  // pixel array not directly behind the headers (bfOffBits), bytes after the pixel array
+  for (int depth : {24, 32})
+    for (int td = 0; td < 2; td++)
+      for (int gap : {1, 8, 300}) {
+        Kind k; k.type = Kind::BMP; k.depth = depth; k.comp = 0; k.topdown = td; k.hdr = 40; k.gap = gap; k.extra = true;
+        k.name = vf::fmt("BMP/%d-bit/BI_RGB/%s/hdr40/gap%d", depth, td ? "top-down" : "bottom-up", gap); k.family = "bmp-rgb";
+        ks.push_back(k);
+      }
+  for (int td = 0; td < 2; td++)
+    for (int gap : {3, 16}) {
+      Kind k; k.type = Kind::BMP; k.depth = 32; k.comp = 3; k.topdown = td; k.hdr = 124; k.gap = gap; k.extra = true;
+      k.perm[0] = 1; k.perm[1] = 3; k.perm[2] = 0; k.perm[3] = 2;
+      k.name = vf::fmt("BMP/32-bit/BI_BITFIELDS/RGBA@bytes1302/%s/hdr124/gap%d", td ? "top-down" : "bottom-up", gap); k.family = "bmp-bitfields";
+      ks.push_back(k);
+    }
+  for (int depth : {24, 32}) {
+    Kind k; k.type = Kind::BMP; k.depth = depth; k.comp = 0; k.hdr = 40; k.trail = 7; k.extra = true;
+    k.name = vf::fmt("BMP/%d-bit/BI_RGB/bottom-up/hdr40/trailing-bytes", depth); k.family = "bmp-rgb";
+    ks.push_back(k);
+  }
+  {
+    Kind k; k.type = Kind::BMP; k.depth = 32; k.comp = 3; k.hdr = 124; k.trail = 7; k.extra = true;
+    k.perm[0] = 0; k.perm[1] = 1; k.perm[2] = 2; k.perm[3] = 3;
+    k.name = "BMP/32-bit/BI_BITFIELDS/RGBA@bytes0123/bottom-up/hdr124/trailing-bytes"; k.family = "bmp-bitfields";
+    ks.push_back(k);
+  }
+  {  // V2 header: three colour masks, no alpha mask - phosg documents whole-byte masks for all four channels: not judged
+    Kind k; k.type = Kind::BMP; k.depth = 32; k.comp = 3; k.hdr = 52; k.extra = true; k.dontcare = true;
+    k.name = "BMP/32-bit/BI_BITFIELDS/RGB-masks-only/bottom-up/hdr52"; k.family = "bmp-bitfields";
+    ks.push_back(k);
+  }
   return ks;
 }
 
@@ -378,25 +628,34 @@ vector<Kind> all_kinds(bool wide_gray) {
 string make_variant(const Kind& k, int w, int h, int pat, Pic& pic) {
   pic = Pic();
   pic.w = w; pic.h = h; pic.cw = k.cw; pic.alpha = k.has_alpha();
-  pic.s.assign((size_t)w * h * 4, mask_of(k.cw));
+  pic.s.assign((size_t)w * h * 4, k.type == Kind::PNM ? k.eff_maxval() : 0xFF);  // opaque = full scale
   string f;
   if (k.type == Kind::PNM) {
     int nl = k.magic == 5 ? 1 : k.magic == 6 ? 3 : (k.tupl == 0 ? 1 : k.tupl == 1 ? 2 : k.tupl == 2 ? 3 : 4);  // samples per pixel in the file
-    unsigned long long maxval = mask_of(k.cw);
+    unsigned long long maxval = k.eff_maxval();
     if (k.magic == 7) {
       const char* tn[4] = {"GRAYSCALE", "GRAYSCALE_ALPHA", "RGB", "RGB_ALPHA"};
-      f = vf::fmt("P7\nWIDTH %d\nHEIGHT %d\nDEPTH %d\nMAXVAL %llu\nTUPLTYPE %s\nENDHDR\n", w, h, nl, maxval, tn[k.tupl]);
+      if (k.order == 0) f = vf::fmt("P7\nWIDTH %d\nHEIGHT %d\nDEPTH %d\nMAXVAL %llu\nTUPLTYPE %s\nENDHDR\n", w, h, nl, maxval, tn[k.tupl]);
+      else if (k.order == 1) f = vf::fmt("P7\nTUPLTYPE %s\nMAXVAL %llu\nDEPTH %d\nHEIGHT %d\nWIDTH %d\nENDHDR\n", tn[k.tupl], maxval, nl, h, w);
+      else f = vf::fmt("P7\n# made by the C06 generator\nWIDTH %d\nHEIGHT %d\nDEPTH %d\nMAXVAL %llu\nTUPLTYPE %s\nENDHDR\n", w, h, nl, maxval, tn[k.tupl]);
     } else {
-      const char* a = k.sep == 0 ? " " : k.sep == 1 ? "\n" : "\t";
-      const char* b = k.sep == 0 ? " " : k.sep == 1 ? " " : "\t ";
-      const char* e = k.sep == 0 ? "\n" : k.sep == 1 ? "\n" : " ";
-      f = vf::fmt("P%d%s%d%s%d%s%llu%s", k.magic, a, w, b, h, a, maxval, e);
+      switch (k.sep) {
+        case 0: f = vf::fmt("P%d %d %d %llu\n", k.magic, w, h, maxval); break;
+        case 1: f = vf::fmt("P%d\n%d %d\n%llu\n", k.magic, w, h, maxval); break;
+        case 2: f = vf::fmt("P%d\t%d\t %d\t%llu ", k.magic, w, h, maxval); break;
+        case 3: f = vf::fmt("P%d\r\n%d %d\r\n%llu\n", k.magic, w, h, maxval); break;
+        case 4: f = vf::fmt("P%d\n\n  %d   %d\n \n%llu\t", k.magic, w, h, maxval); break;
+        case 5: f = vf::fmt("P%d 00%d 0%d 0%llu\n", k.magic, w, h, maxval); break;
+        case 6: f = vf::fmt("P%d\n# made by the C06 generator\n%d %d\n%llu\n", k.magic, w, h, maxval); break;
+        default: f = vf::fmt("P%d %d %d %llu\r", k.magic, w, h, maxval); break;
+      }
     }
     for (int y = 0; y < h; y++)
       for (int x = 0; x < w; x++) {
         uint64_t v[4];
         for (int c = 0; c < nl; c++) {
           v[c] = sample(pat, ((uint64_t)y * w + x) * nl + c, k.cw);
+          if (k.maxval) v[c] %= k.maxval + 1;  // samples never exceed MAXVAL (k.maxval < 2^64-1 by construction)
           char b[8];
           memcpy(b, &v[c], 8);
           f.append(b, k.cw / 8);
@@ -408,14 +667,15 @@ string make_variant(const Kind& k, int w, int h, int pat, Pic& pic) {
           for (int c = 0; c < nl; c++) pic.at(x, y, c) = v[c];
         }
       }
+    f.append((size_t)k.trail, (char)0xCC);
     return f;
   }
   // BMP
   int bpp = k.depth / 8;
   size_t stride = ((size_t)w * bpp + 3) / 4 * 4;
-  uint32_t off = 14 + k.hdr;
+  uint32_t off = 14 + k.hdr + k.gap;
   f = "BM";
-  p32(f, off + stride * h);
+  p32(f, off + stride * h + k.trail);
   p16(f, 0); p16(f, 0);
   p32(f, off);
   p32(f, k.hdr);
@@ -426,12 +686,15 @@ string make_variant(const Kind& k, int w, int h, int pat, Pic& pic) {
   p32(f, stride * h);
   p32(f, 2835); p32(f, 2835);
   p32(f, 0); p32(f, 0);
+  if (k.hdr >= 52)
+    for (int c = 0; c < 3; c++) p32(f, k.comp == 3 ? (0xFFu << (8 * k.perm[c])) : 0);
+  if (k.hdr >= 56) p32(f, k.comp == 3 ? (0xFFu << (8 * k.perm[3])) : 0);
   if (k.hdr >= 108) {
-    for (int c = 0; c < 4; c++) p32(f, k.comp == 3 ? (0xFFu << (8 * k.perm[c])) : 0);
     p32(f, k.hdr == 124 ? 0x73524742 : 0x57696E20);  // 'sRGB' / 'Win '
     for (int i = 0; i < 12; i++) p32(f, 0);
   }
   if (k.hdr >= 124) { p32(f, 4); p32(f, 0); p32(f, 0); p32(f, 0); }
+  f.append((size_t)k.gap, (char)0xDD);
   for (int row = 0; row < h; row++) {
     int y = k.topdown ? row : h - 1 - row;
     size_t start = f.size();
@@ -440,7 +703,7 @@ string make_variant(const Kind& k, int w, int h, int pat, Pic& pic) {
       for (int c = 0; c < 4; c++) v[c] = sample(pat, ((uint64_t)y * w + x) * 4 + c, 8);
       for (int c = 0; c < 3; c++) pic.at(x, y, c) = v[c];
       if (k.comp == 3) {
-        pic.at(x, y, 3) = v[3];
+        if (k.hdr >= 56) pic.at(x, y, 3) = v[3];
         uint8_t px[4];
         for (int c = 0; c < 4; c++) px[k.perm[c]] = v[c];
         f.append((char*)px, 4);
@@ -451,6 +714,7 @@ string make_variant(const Kind& k, int w, int h, int pat, Pic& pic) {
     }
     while (f.size() - start < stride) f.push_back((char)0xEE);  // padding content is unspecified
   }
+  f.append((size_t)k.trail, (char)0xCC);
   return f;
 }
 
@@ -495,6 +759,14 @@ string slurp(const string& path) {
   return s;
 }
 
+// dimensions that cross the 8/16-bit boundaries of the header fields and the 64 KiB mark of buffers; enumerated with
+// the coordinate pattern and 8/16-bit channels only
+vector<std::pair<int, int>> saveload_big_dims(bool thorough) {
+  vector<std::pair<int, int>> d = {{255, 1}, {256, 1}, {257, 2}, {1, 257}, {2, 256}, {65536, 1}, {1, 65537}, {300, 211}};
+  if (thorough) for (auto p : {std::pair<int, int>{65535, 1}, {65537, 2}, {1, 65535}, {2, 65536}, {1000, 1000}, {127, 129}, {128, 128}, {4097, 3}}) d.push_back(p);
+  return d;
+}
+
 vector<std::pair<int, int>> saveload_dims(bool thorough) {
   vector<std::pair<int, int>> d;
   if (!thorough) {
@@ -520,11 +792,16 @@ VF_SECTION(saveload, 8, 16, 90) {
   dump.open(r);
   string sdir = scratch_dir();
   const Image::Format fmts[3] = {Image::Format::COLOR_PPM, Image::Format::WINDOWS_BITMAP, Image::Format::PNG};
-  for (auto [w, h] : saveload_dims(r.thorough()))
+  auto dims = saveload_dims(r.thorough());
+  size_t nsmall = dims.size();
+  for (auto p : saveload_big_dims(r.thorough())) dims.push_back(p);
+  for (size_t di = 0; di < dims.size(); di++)
     for (int alpha = 0; alpha < 2; alpha++)
       for (int cw : {8, 16, 32, 64})
         for (int pat = 0; pat < NPAT; pat++)
           for (auto fmt : fmts) {
+            auto [w, h] = dims[di];
+            if (di >= nsmall && (pat != 2 || cw > 16)) continue;
             if (!r.take()) continue;
             string what = vf::fmt("%dx%d %s %d-bit pattern=%s -> %s", w, h, alpha ? "alpha" : "no-alpha", cw, pat_name[pat], fmt_name(fmt));
             if (r.wants_desc()) r.desc("save/load " + what);
@@ -558,7 +835,10 @@ VF_SECTION(saveload, 8, 16, 90) {
             bool via_file = (pat == 2 && h <= 2 && w <= 8);
             if (via_file) {
               string path = vf::fmt("%s/sl-%d-%llu.%s", sdir.c_str(), (int)getpid(), (unsigned long long)r.shard, fmt_name(fmt));
-              string o3 = vf::outcome([&] { img.save(path, fmt); });
+              string o3 = vf::outcome([&] {
+                if (w % 2) img.save(path, fmt);  // const std::string& overload
+                else img.save(path.c_str(), fmt);  // const char* overload
+              });
               string disk = slurp(path);
               if (o3 != "ok" || disk != bytes) {
                 unlink(path.c_str());
@@ -568,7 +848,7 @@ VF_SECTION(saveload, 8, 16, 90) {
               if (fmt != Image::Format::PNG) {
                 bool eq = false;
                 string o4 = vf::outcome([&] {
-                  Image l(path);
+                  Image l = w % 2 ? Image(path) : Image(path.c_str());
                   eq = (ssize_t)l.get_width() == w && (ssize_t)l.get_height() == h && l.get_has_alpha() == (bool)alpha && l.get_channel_width() == cw &&
                       l.get_data_size() == raw.size() && memcmp(l.get_data(), raw.data(), raw.size()) == 0;
                 });
@@ -577,7 +857,7 @@ VF_SECTION(saveload, 8, 16, 90) {
               } else unlink(path.c_str());
             }
             if (cw == 8) {
-              dump.rec(vf::fmt("{\"idx\":%llu,\"role\":\"saved\",\"fmt\":\"%s\",\"w\":%d,\"h\":%d,\"alpha\":%d,\"pat\":%d}", (unsigned long long)r.cur, fmt_name(fmt), w, h, alpha, pat), bytes, "");
+              dump.rec(vf::fmt("{\"idx\":%llu,\"section\":\"saveload\",\"role\":\"saved\",\"fmt\":\"%s\",\"w\":%d,\"h\":%d,\"alpha\":%d,\"pat\":%d}", (unsigned long long)r.cur, fmt_name(fmt), w, h, alpha, pat), bytes, "");
               r.counters["files_for_python"]++;
             }
             if (fmt == Image::Format::PNG) { r.ok("png-saved(decoded by python stage)"); continue; }
@@ -597,8 +877,10 @@ VF_SECTION(saveload, 8, 16, 90) {
             }
             r.ok(string(via_file ? "roundtrip-identical(+file)" : "roundtrip-identical"));
           }
-  r.bound = r.thorough() ? "dims {1..64}x{1,2,3,5} u {1..8}x{1..64} u {17x17,33x47,63x61,64x64} x alpha x {8,16,32,64} x 6 patterns x {ppm,bmp,png}"
-                         : "dims {1..8}x{1..5} u {64x1,1x64,63x2,33x3,17x17} x alpha x {8,16,32,64} x 6 patterns x {ppm,bmp,png}";
+  r.bound = r.thorough() ? "dims {1..64}x{1,2,3,5} u {1..8}x{1..64} u {17x17,33x47,63x61,64x64} x alpha x {8,16,32,64} x 6 patterns x {ppm,bmp,png}; boundary dims {255x1,256x1,257x2,1x257,2x256,"
+                           "65536x1,1x65537,300x211,65535x1,65537x2,1x65535,2x65536,1000x1000,127x129,128x128,4097x3} x alpha x {8,16} x coordinate pattern x 3 formats"
+                         : "dims {1..8}x{1..5} u {64x1,1x64,63x2,33x3,17x17} x alpha x {8,16,32,64} x 6 patterns x {ppm,bmp,png}; boundary dims {255x1,256x1,257x2,1x257,2x256,65536x1,1x65537,300x211} "
+                           "x alpha x {8,16} x coordinate pattern x 3 formats";
 }
 
 // =============================================================================================
@@ -617,20 +899,81 @@ vector<std::pair<int, int>> variant_dims(bool thorough) {
   return d;
 }
 
+// load -> save -> load (cooperating sites): whatever an image holds after loading must survive being written and read
+// again, and a netpbm MAXVAL must still be the file's MAXVAL (it is the scale of every sample)
+string resave_check(const Kind& k, const string& file, const Loaded& L) {
+  uint8_t* copy = (uint8_t*)malloc(file.size());
+  memcpy(copy, file.data(), file.size());
+  FILE* f = fmemopen(copy, file.size(), "rb");
+  string res;
+  try {
+    Image img(f);
+    string ppm = img.save(Image::Format::COLOR_PPM);
+    PnmHdr H = parse_pnm_header(ppm);
+    uint64_t want_max = k.type == Kind::PNM ? k.eff_maxval() : 0xFF;
+    if (!H.ok) res = "re-saved PPM has no valid netpbm header: " + vf::show(ppm.substr(0, 60));
+    else if (H.w != (uint64_t)L.w || H.h != (uint64_t)L.h) res = vf::fmt("re-saved PPM header says %llux%llu", (unsigned long long)H.w, (unsigned long long)H.h);
+    else if (H.maxval != want_max) res = vf::fmt("re-saved PPM header has MAXVAL %llu, the loaded file has %llu", (unsigned long long)H.maxval, (unsigned long long)want_max);
+    else {
+      Loaded R = load_bytes((const uint8_t*)ppm.data(), ppm.size());
+      if (!same_loaded(R, L)) res = vf::fmt("load(save_ppm(load(file))) gives %s %dx%d %d-bit alpha=%d, load(file) gave %dx%d %d-bit alpha=%d (or other pixels)", R.outcome.c_str(), R.w, R.h, R.cw, R.alpha, L.w, L.h, L.cw, L.alpha);
+    }
+    if (res.empty() && L.cw == 8) {
+      string bmp = img.save(Image::Format::WINDOWS_BITMAP);
+      Loaded R = load_bytes((const uint8_t*)bmp.data(), bmp.size());
+      if (!same_loaded(R, L)) res = vf::fmt("load(save_bmp(load(file))) gives %s %dx%d %d-bit alpha=%d, load(file) gave %dx%d %d-bit alpha=%d (or other pixels)", R.outcome.c_str(), R.w, R.h, R.cw, R.alpha, L.w, L.h, L.cw, L.alpha);
+    }
+  } catch (const std::exception& e) {
+    res = string("exception while re-saving: ") + e.what();
+  }
+  fclose(f);
+  free(copy);
+  return res;
+}
+
 // verdict of loading one complete file in the child: "OK <class>" | "FAIL <kind>\t<desc>"
-string check_full_load(const string& file, const Pic& pic) {
-  bool leak = leaks([&] { Loaded t = load_bytes((const uint8_t*)file.data(), file.size()); });
-  Loaded L = load_bytes((const uint8_t*)file.data(), file.size());
+string check_full_load(const Kind& k, const string& file, const Pic& pic, uint64_t idx, const string& sdir) {
+  const uint8_t* d = (const uint8_t*)file.data();
+  bool leak = leaks([&] { Loaded t = load_bytes(d, file.size()); });
+  errno = idx % 3 == 0 ? EINTR : idx % 3 == 1 ? ERANGE : 0;  // ambient errno must not matter
+  Loaded L = load_bytes(d, file.size());
+  if (k.dontcare) return "OK dont-care(outside the statement):" + L.outcome;
   if (L.outcome != "ok") return "FAIL throws\tImage(FILE*) threw " + L.outcome + " (" + L.what + ")";
   string c = compare_loaded(L, pic, true);
   if (!c.empty()) return "FAIL " + c;
   if (leak) return "FAIL leak\tLeakSanitizer reports memory still allocated after the image was loaded and destroyed";
+  auto differs = [&](const char* how, const Loaded& S) {
+    return vf::fmt("the same file %s gives %s %dx%d (%s), from a memory stream it gives %s %dx%d with the expected pixels", how, S.outcome.c_str(), S.w, S.h, S.what.c_str(), L.outcome.c_str(), L.w, L.h);
+  };
   // delivery invariance: the same bytes arriving 1 or 7 at a time (short reads) must decode identically
   for (size_t chunk : {1, 7}) {
-    Loaded S = load_bytes((const uint8_t*)file.data(), file.size(), chunk);
-    if (S.outcome != L.outcome || S.w != L.w || S.h != L.h || S.cw != L.cw || S.alpha != L.alpha || S.raw != L.raw)
-      return vf::fmt("FAIL short-read-delivery-differs\tthe same file delivered %zu byte(s) per read gives %s %dx%d, in one piece it gives %s %dx%d with the expected pixels", chunk, S.outcome.c_str(), S.w, S.h, L.outcome.c_str(), L.w, L.h);
+    Loaded S = load_bytes(d, file.size(), chunk);
+    if (!same_loaded(S, L)) return "FAIL short-read-delivery-differs\t" + differs(vf::fmt("delivered %zu byte(s) per read", chunk).c_str(), S);
   }
+  // every loading overload on a real file
+  string path = vf::fmt("%s/v-%d.bin", sdir.c_str(), (int)getpid());
+  if (!write_file(path, d, file.size())) return "FAIL harness\tcannot write " + path;
+  static const char* mode_name[5] = {"through Image(FILE*) on a real file", "through Image(FILE*) on an unbuffered real file", "through Image(const char* filename)",
+      "through Image(const std::string& filename)", "through Image(nullptr) with the file as stdin"};
+  for (int mode = 0; mode < 5; mode++) {
+    if (mode == 4 && idx % 2) continue;  // stdin is used once per process: by the file or by the pipe
+    Loaded S = load_file(path, mode);
+    if (!same_loaded(S, L)) { unlink(path.c_str()); return "FAIL overload-or-file-delivery-differs\t" + differs(mode_name[mode], S); }
+  }
+  unlink(path.c_str());
+  // streams that cannot seek
+  {
+    Loaded S = load_bytes(d, file.size(), 3, false);
+    if (!same_loaded(S, L)) return "FAIL non-seekable-stream-differs\t" + differs("from a stream that cannot seek (fopencookie without seek, 3 bytes per read)", S);
+    S = load_pipe(d, file.size(), false);
+    if (!same_loaded(S, L)) return "FAIL non-seekable-stream-differs\t" + differs("through Image(FILE*) on a pipe", S);
+    if (idx % 2) {
+      S = load_pipe(d, file.size(), true);
+      if (!same_loaded(S, L)) return "FAIL non-seekable-stream-differs\t" + differs("through Image(nullptr) with a pipe as stdin", S);
+    }
+  }
+  string rs = resave_check(k, file, L);
+  if (!rs.empty()) return "FAIL resave-changes-image\t" + rs;
   return "OK decoded-as-defined";
 }
 
@@ -640,6 +983,7 @@ VF_SECTION(variants, 16, 16, 90) {
   Dump dump;
   dump.open(r);
   auto kinds = all_kinds(true);
+  string sdir = scratch_dir();
   warm_symbolizer();
   // warm up libc/libstdc++ lazy allocations in the parent so the children's heap balance is quiet
   {
@@ -649,32 +993,47 @@ VF_SECTION(variants, 16, 16, 90) {
     load_bytes((const uint8_t*)f.data(), f.size());
     load_bytes((const uint8_t*)f.data(), 5);
   }
-  for (auto [w, h] : variant_dims(r.thorough()))
-    for (int pat : {2, 3, 5})
-      for (auto& k : kinds) {
-        if (!r.take()) continue;
-        string what = vf::fmt("%s %dx%d pattern=%s", k.name.c_str(), w, h, pat_name[pat]);
-        if (r.wants_desc()) r.desc("load " + what);
-        r.note("load-" + k.family);
-        r.nontriv();
-        Pic pic;
-        string file = make_variant(k, w, h, pat, pic);
-        if (k.cw == 8) {
-          string exp;
-          for (auto v : pic.s) exp.push_back((char)v);
-          dump.rec(vf::fmt("{\"idx\":%llu,\"role\":\"variant\",\"name\":\"%s\",\"w\":%d,\"h\":%d,\"alpha\":%d}", (unsigned long long)r.cur, k.name.c_str(), w, h, pic.alpha ? 1 : 0), file, exp);
-          r.counters["files_for_python"]++;
+  size_t ncore = 0, nextra = 0, ndc = 0;
+  for (auto& k : kinds) { (k.extra ? nextra : ncore)++; ndc += k.dontcare; }
+  auto dims_core = variant_dims(r.thorough());
+  vector<std::pair<int, int>> dims_extra = {{1, 1}, {3, 2}, {2, 3}, {5, 3}, {7, 2}, {17, 17}};
+  if (r.thorough()) for (auto p : {std::pair<int, int>{4, 1}, {1, 5}, {6, 5}, {64, 3}, {3, 64}, {63, 61}}) dims_extra.push_back(p);
+  for (int pass = 0; pass < 2; pass++)
+    for (auto [w, h] : pass == 0 ? dims_core : dims_extra)
+      for (int pat : {2, 3, 5}) {
+        if (pass == 1 && pat == 3 && !r.thorough()) continue;
+        for (auto& k : kinds) {
+          if (k.extra != (pass == 1)) continue;
+          if (!r.take()) continue;
+          string what = vf::fmt("%s %dx%d pattern=%s", k.name.c_str(), w, h, pat_name[pat]);
+          if (r.wants_desc()) r.desc("load " + what);
+          r.note("load-" + k.family);
+          r.nontriv();
+          Pic pic;
+          string file = make_variant(k, w, h, pat, pic);
+          if (k.cw == 8 && !k.dontcare) {
+            string exp;
+            for (size_t i = 0; i < pic.s.size(); i++) exp.push_back((i % 4 == 3 && !pic.alpha) ? (char)0xFF : (char)pic.s[i]);
+            dump.rec(vf::fmt("{\"idx\":%llu,\"section\":\"variants\",\"role\":\"variant\",\"name\":\"%s\",\"w\":%d,\"h\":%d,\"alpha\":%d,\"maxval\":%llu,\"trail\":%d}", (unsigned long long)r.cur,
+                         k.name.c_str(), w, h, pic.alpha ? 1 : 0, (unsigned long long)(k.type == Kind::PNM ? k.eff_maxval() : 255), k.trail), file, exp);
+            r.counters["files_for_python"]++;
+          }
+          uint64_t idx = r.cur;
+          Iso iso = isolated([&] { return check_full_load(k, file, pic, idx, sdir); });
+          if (!iso.normal) {
+            if (k.dontcare) { r.ok(k.family + ":dont-care(outside the statement):process-died"); continue; }
+            r.fail(k.family + ":crash", [&] { return what + vf::fmt(" (%zu-byte file %s): loading it killed the process: %s", file.size(), vf::show(file.substr(0, 48)).c_str(), iso.asan.c_str()); });
+          } else if (iso.verdict.compare(0, 5, "FAIL ") == 0) {
+            size_t t = iso.verdict.find('\t');
+            r.fail(k.family + ":" + iso.verdict.substr(5, t - 5), [&] { return what + vf::fmt(" (%zu-byte file %s): ", file.size(), vf::show(file.substr(0, 48)).c_str()) + iso.verdict.substr(t + 1); });
+          } else r.ok(k.family + ":" + iso.verdict.substr(3));
         }
-        Iso iso = isolated([&] { return check_full_load(file, pic); });
-        if (!iso.normal) {
-          r.fail(k.family + ":crash", [&] { return what + vf::fmt(" (%zu-byte file %s): loading it killed the process: %s", file.size(), vf::show(file.substr(0, 48)).c_str(), iso.asan.c_str()); });
-        } else if (iso.verdict.compare(0, 5, "FAIL ") == 0) {
-          size_t t = iso.verdict.find('\t');
-          r.fail(k.family + ":" + iso.verdict.substr(5, t - 5), [&] { return what + vf::fmt(" (%zu-byte file %s): ", file.size(), vf::show(file.substr(0, 48)).c_str()) + iso.verdict.substr(t + 1); });
-        } else r.ok(k.family + ":" + iso.verdict.substr(3));
       }
-  r.bound = vf::fmt("%zu container variants (P5/P6 x3 header-whitespace forms, P7 x4 tuple types, wide P5 / P7 GRAYSCALE_ALPHA 16/32/64, BMP 24/32 BI_RGB x order x V3/V4/V5, "
-                    "BI_BITFIELDS x 24 mask permutations x order x V4/V5) x %zu dims x 3 patterns", kinds.size(), variant_dims(r.thorough()).size());
+  r.bound = vf::fmt("%zu container variants: %zu core (P5/P6 x3 header-whitespace forms, P7 x4 tuple types, wide P5 / P7 GRAYSCALE_ALPHA 16/32/64, BMP 24/32 BI_RGB x order x 40/52/56/108/124-byte headers, "
+                    "BI_BITFIELDS x 24 mask permutations x order x 56/108/124-byte headers) x %zu dims x 3 patterns + %zu extra (5 more header whitespace forms, P7 line order, 22 MAXVAL boundary values x 4 containers, "
+                    "wide RGB, pixel-array gaps, trailing bytes; %zu of them outside the statement: executed, not judged) x %zu dims x %d patterns; each file through 11 deliveries "
+                    "(memory, short reads, 4 real-file overloads, stdin, non-seekable cookie, pipe) and re-saved as PPM/BMP and loaded again",
+      kinds.size(), ncore, dims_core.size(), nextra, ndc, dims_extra.size(), r.thorough() ? 3 : 2);
 }
 
 // =============================================================================================
@@ -691,6 +1050,20 @@ string check_prefix(const string& file, size_t n, const Pic& pic) {
     cls = "OK accepted-identical(cut in trailing padding)";
   } else cls = "OK rejected:" + L.outcome;
   if (leak) return "FAIL leak\tLeakSanitizer reports memory still allocated after the " + (L.outcome == "ok" ? string("load") : "exception (" + L.outcome + ")");
+  // the same prefix from a stream that cannot seek and delivers 5 bytes per read (a pipe that was closed early)
+  Loaded N = load_bytes((const uint8_t*)file.data(), n, 5, false);
+  if (N.outcome == "nonstd") return "FAIL nonstd-exception\tprefix load from a non-seekable stream ended with a non-standard exception";
+  if (N.outcome == "ok") {
+    string c = compare_loaded(N, pic, true);
+    if (!c.empty()) return "FAIL non-seekable-accepted-differently\tthe truncated file, read from a stream that cannot seek, was accepted but " + c.substr(c.find('\t') + 1);
+  }
+  // I/O fault instead of end of file: the read that would deliver byte n fails once (EINTR) on the complete file
+  Loaded E = load_bytes((const uint8_t*)file.data(), file.size(), 1, true, (ssize_t)n);
+  if (E.outcome == "nonstd") return "FAIL nonstd-exception\tload with a failing read ended with a non-standard exception";
+  if (E.outcome == "ok") {
+    string c = compare_loaded(E, pic, true);
+    if (!c.empty()) return "FAIL read-error-accepted-differently\tthe read covering offset " + std::to_string(n) + " failed once with EINTR; the file was accepted but " + c.substr(c.find('\t') + 1);
+  }
   return cls;
 }
 
@@ -769,8 +1142,10 @@ VF_SECTION(truncate, 16, 16, 90) {
     }
   };
   for (auto [w, h] : dims) {
-    // generated input variants
+    // generated input variants (the extra ones over two dims only; those outside the statement not at all)
     for (auto& k : kinds) {
+      if (k.dontcare) continue;
+      if (k.extra && !((w == 2 && h == 2) || (w == 3 && h == 2) || (r.thorough() && w == 5 && h == 3))) continue;
       r.note("truncated-" + k.family);
       Pic pic;
       string file = make_variant(k, w, h, 2, pic);
@@ -795,8 +1170,11 @@ VF_SECTION(truncate, 16, 16, 90) {
         }
   }
   r.counters["files"] = r.shard == 0 ? nfiles : 0;
-  r.bound = vf::fmt("every prefix length 0..len-1 of %llu files (all %zu generated container variants + phosg's own PPM/BMP output, %zu dims, longest file %zu bytes)",
-      (unsigned long long)nfiles, kinds.size(), dims.size(), maxlen);
+  r.bound = vf::fmt("every prefix length 0..len-1 of %llu files (the core container variants over %zu dims, the extra ones over 2 dims, phosg's own PPM/BMP output; longest file %zu bytes), "
+                    "each prefix from a memory stream and from a non-seekable short-read stream, plus a one-off read error (EINTR) at the same offset of the complete file",
+      (unsigned long long)nfiles, dims.size(), maxlen);
 }
+
+#include "C06_r2.hh"
 
 VF_MAIN()
